@@ -123,10 +123,28 @@ def access_path(body, t, roots=None, depth=0):
             return (t, "")
         if last in _IDENT_LAST and len(t[2]) == 1:
             return access_path(body, t[2][0], roots, depth + 1)
+        if last in ("filter_map", "flat_map", "map") and len(t[2]) == 2 and "iterator::Iterator" in t[1].get("decl", ""):
+            # elements of `SRC.filter_map(|x| x.f.as_mut())` / `SRC.flat_map(|x| x.g.iter_mut())` / `SRC.map(|x| &mut x.h)` are places inside SRC's elements
+            from . import mir as _mir
+            src = access_path(body, t[2][0], roots, depth + 1)
+            cl, ups = _mir.closure_of(t[2][1])
+            cb = body.prog.body(cl) if cl else None
+            if src is None or cb is None:
+                return None
+            item = ("arg", 2, cb.names.get(2))
+            q = access_path(cb, cb.return_term(), [item], depth + 1)
+            if q is None or q[0] != item:
+                return None
+            sp = src[1]
+            elem = sp[:-len("{each}")] if sp.endswith("{each}") else sp + "[*]"
+            tail = q[1] + ("?" if last == "filter_map" else ("[*]" if last == "flat_map" else ""))
+            return (src[0], elem + tail + "{each}")
         if last in _ELEM_LAST and len(t[2]) == 1:
             r = access_path(body, t[2][0], roots, depth + 1)
             if r is None:
                 return None
+            if r[1].endswith("{each}"):
+                return (r[0], r[1][:-len("{each}")] + "<each-next>")
             # `next(it)` is an Option<item>: the following `as Some.0` turns into `?`; we fold
             # "element of" + "?" into `[*]`
             return (r[0], r[1] + "[*]<next>")
@@ -164,4 +182,4 @@ def _is_place_like(t):
 
 def norm(path):
     """`x[*]<next>?` (item of an iterator, unwrapped from `Some`) -> `x[*]`"""
-    return path.replace("[*]<next>?", "[*]").replace("<next>", "<next-unwrapped?>")
+    return path.replace("<each-next>?", "").replace("[*]<next>?", "[*]").replace("<next>", "<next-unwrapped?>")
